@@ -16,7 +16,19 @@ fn client_routes(text: &str) -> Vec<(String, String)> {
         let name: String = r.chars().take_while(|c| c.is_alphanumeric() || *c == '_').collect();
         let end = r.find("pub async fn ").unwrap_or(r.len());
         let body = &r[..end];
-        if let Some(a) = after(body, "route_mut () = ") { if let Some((p, _)) = lit(a) { out.push((name, p)); } }
+        if let Some(a) = after(body, "route_mut () = ") {
+            if let Some((p, _)) = lit(a) {
+                // the assignment has to be a statement of the method body itself (brace depth 1: not inside an `if`, a `match` arm, a closure or a loop), the
+                // only one, and in front of the call that sends the request: whatever route the caller's Request object carried, the call goes out on THIS one
+                let at = body.len() - a.len();
+                let open = body.find('{').unwrap_or(0);
+                let depth = body[open..at].chars().fold(0i32, |d, c| match c { '{' => d + 1, '}' => d - 1, _ => d });
+                let once = body.matches("route_mut ()").count() == 1;
+                let before_send = body.find(". unary (").map(|u| at < u).unwrap_or(false);
+                let p = if depth == 1 && once && before_send { p } else { format!("{p} [assigned conditionally or not exactly once before the request is sent: depth {depth}, once {once}, before_send {before_send}]") };
+                out.push((name, p));
+            }
+        }
         rest = r;
     }
     out
